@@ -239,7 +239,7 @@ def run_c05(ctx):
             ctx.stats["op-new_session"] += 1
             continue
         policy = t.pick([None, True, False], "overwrite")
-        ver = t.weighted([(0, 3), (1, 1), (2, 1)], "version")
+        ver = t.weighted([(0, 3), (1, 1), (2, 1), (10, 1)], "version")
         ctx.stats["op-" + op] += 1
         if op in ("harvest_combos", "harvest_cases", "add_ds", "save_merge_ds"):
             avals = t.perm(A_POOL, "a-vals")[: t.int_between(1, 3, "na")]
